@@ -186,6 +186,15 @@ func c10March(cv *marching.MarchingCanvas, cutoff float64, parallel bool) (m mod
 	return
 }
 
+func c10MarchWhy(cv *marching.MarchingCanvas, cutoff float64) (m modeling.Mesh, res string) {
+	defer func() {
+		if r := recover(); r != nil {
+			res = fmt.Sprint(r)
+		}
+	}()
+	return cv.March(cutoff), "ok"
+}
+
 type c10Opts struct {
 	marchVariants bool // also March the canvases built by the parallel AddField variants
 	cells         bool // compare the canvas cells after each call and replay the history in the Lean job model
@@ -197,7 +206,9 @@ const c10MaxTokens = 7000
 // three AddField variants on three canvases
 func (c *Ctx) c10Canvas(label string, cpu float64, shapes []c10Shape, cutoff float64, opt c10Opts) {
 	h := 1 / cpu
-	exact := cutoff <= 0
+	// exact positions only for ONE exact field: accumulated fields interpolate at non-dyadic parameters, where two different
+	// vertices can share a weld cell and the representative depends on block order (for the sequential March as well)
+	exact := cutoff <= 0 && len(shapes) == 1
 	twoAttr := false
 	for _, sh := range shapes {
 		if sh.kind != "l1" {
@@ -215,6 +226,7 @@ func (c *Ctx) c10Canvas(label string, cpu float64, shapes []c10Shape, cutoff flo
 		{"AddFieldParallel2", func(cv *marching.MarchingCanvas, f marching.Field) { cv.AddFieldParallel2(f) }},
 	}
 	var seqTris []string
+	seqOutcome := "ok"
 	seqSamples := make([][]string, len(shapes))
 	seqDumps := make([][]string, len(shapes))
 	var seqCanvas *marching.MarchingCanvas
@@ -282,11 +294,15 @@ func (c *Ctx) c10Canvas(label string, cpu float64, shapes []c10Shape, cutoff flo
 				c.Note(fmt.Sprintf("blocks-with-data=%d", len(blocks)))
 			}
 			c.Note("family=" + map[bool]string{true: "exact-positions", false: "weld-cells"}[exact])
-			m, r := c10March(cv, cutoff, false)
+			m, r := c10MarchWhy(cv, cutoff)
 			if r != "ok" {
-				panic("sequential March panicked on a generated case: " + label)
+				// the sequential reference itself rejects this canvas (observed: an EMPTY surface makes March panic): the
+				// parallel variants must then behave alike — compared as outcomes below, never a harness crash
+				seqOutcome = "panic"
+				c.Note("sequential-march-panics")
+			} else {
+				seqTris = c10Tris(m, exact)
 			}
-			seqTris = c10Tris(m, exact)
 			if len(seqTris) == 0 {
 				c.Note("empty-surface")
 			}
@@ -300,16 +316,17 @@ func (c *Ctx) c10Canvas(label string, cpu float64, shapes []c10Shape, cutoff flo
 			continue
 		}
 		m, r := c10March(cv, cutoff, false)
-		if r != "ok" {
-			c.Emit("c10.holds.same_output", "1 ok panic", "true")
+		if r != "ok" || seqOutcome != "ok" {
+			c.Emit("c10.holds.same_output", fmt.Sprintf("1 %s %s", seqOutcome, r), "true")
 			continue
 		}
 		c10SameTris(c, label+"/"+v.name+"+March", seqTris, c10Tris(m, exact))
 	}
 	// parallel marching of the sequentially built canvas
 	m, r := c10March(seqCanvas, cutoff, true)
-	if r != "ok" {
-		c.Emit("c10.holds.same_output", "1 ok panic", "true")
+	if r != "ok" || seqOutcome != "ok" {
+		// outcome of March vs outcome of MarchParallel on the same canvas (label in the notes: sequential-march-panics)
+		c.Emit("c10.holds.same_output", fmt.Sprintf("1 %s %s", seqOutcome, r), "true")
 	} else {
 		c10SameTris(c, label+"/AddField+MarchParallel", seqTris, c10Tris(m, exact))
 	}
